@@ -4,6 +4,16 @@
 package dsstate
 
 import (
+	"context"
+	"encoding/json"
+	"fmt"
+	"os"
+	"sort"
+	"strings"
+	"sync"
+
+	"github.com/ipfs/ipfs-cluster/api"
+
 	ds "github.com/ipfs/go-datastore"
 )
 
@@ -15,5 +25,119 @@ var VerifHook func(ev string, st *State, store ds.Read)
 func verifHook(ev string, st *State) {
 	if h := VerifHook; h != nil {
 		h(ev, st, st.dsRead)
+	}
+}
+
+// ---------------------------------------------------------------------------
+// Default observer: when the environment variable VERIF_TRACE_FILE is set (and
+// no hook was installed by a harness) every event is appended as one JSON line
+// to that file, so that executions of the repository's own tests become traces
+// the /verif specification can validate. One mutex orders the lines of a
+// process and assigns seq.
+
+var (
+	verifTraceMu  sync.Mutex
+	verifTraceF   *os.File
+	verifTraceSeq int
+)
+
+// VerifTraceEmit appends one event to $VERIF_TRACE_FILE (no-op when unset).
+func VerifTraceEmit(ev map[string]interface{}) {
+	path := os.Getenv("VERIF_TRACE_FILE")
+	if path == "" {
+		return
+	}
+	verifTraceMu.Lock()
+	defer verifTraceMu.Unlock()
+	if verifTraceF == nil {
+		f, err := os.OpenFile(path, os.O_CREATE|os.O_WRONLY|os.O_APPEND, 0644)
+		if err != nil {
+			return
+		}
+		verifTraceF = f
+	}
+	verifTraceSeq++
+	ev["seq"] = verifTraceSeq
+	ev["pid"] = os.Getpid()
+	b, err := json.Marshal(ev)
+	if err != nil {
+		return
+	}
+	verifTraceF.Write(append(b, '\n'))
+}
+
+// VerifStoreID identifies the datastore a state reads from (its address).
+func VerifStoreID(st *State) string {
+	if st == nil {
+		return ""
+	}
+	return fmt.Sprintf("%p", st.dsRead)
+}
+
+// VerifPinDigest is a canonical text of every stored field of a pin.
+func VerifPinDigest(p *api.Pin) string {
+	if p == nil {
+		return "nil"
+	}
+	allocs := make([]string, 0, len(p.Allocations))
+	for _, a := range p.Allocations {
+		allocs = append(allocs, a.Pretty())
+	}
+	keys := make([]string, 0, len(p.Metadata))
+	for k := range p.Metadata {
+		keys = append(keys, k)
+	}
+	sort.Strings(keys)
+	meta := ""
+	for _, k := range keys {
+		meta += fmt.Sprintf("%q=%q;", k, p.Metadata[k])
+	}
+	ref := "nil"
+	if p.Reference != nil {
+		ref = p.Reference.String()
+	}
+	exp := int64(0)
+	if !p.ExpireAt.IsZero() && p.ExpireAt.Unix() > 0 {
+		exp = p.ExpireAt.Unix()
+	}
+	origins := make([]string, 0, len(p.Origins))
+	for _, o := range p.Origins {
+		if o != nil {
+			origins = append(origins, o.String())
+		}
+	}
+	return fmt.Sprintf("t%d d%d a[%s] r%s f%d/%d n%q s%d e%d m{%s} u%s o[%s]", p.Type, p.MaxDepth,
+		strings.Join(allocs, ","), ref, p.ReplicationFactorMin, p.ReplicationFactorMax, p.Name, p.ShardSize, exp,
+		meta, p.PinUpdate.String(), strings.Join(origins, ","))
+}
+
+// VerifPinset lists a state as cid -> digest.
+func VerifPinset(st *State) (map[string]string, error) {
+	pins, err := st.List(context.Background())
+	if err != nil {
+		return nil, err
+	}
+	out := make(map[string]string, len(pins))
+	for _, p := range pins {
+		out[p.Cid.String()] = VerifPinDigest(p)
+	}
+	return out, nil
+}
+
+func init() {
+	if os.Getenv("VERIF_TRACE_FILE") == "" {
+		return
+	}
+	VerifHook = func(ev string, st *State, store ds.Read) {
+		if ev != "Unmarshal" {
+			return
+		}
+		m := map[string]interface{}{"ev": "Unmarshal", "store": VerifStoreID(st)}
+		ps, err := VerifPinset(st)
+		if err != nil {
+			m["err"] = err.Error()
+		}
+		m["st"] = ps
+		VerifTraceEmit(m)
 	}
 }
